@@ -129,7 +129,16 @@ def run_case(case, ci):
                 hits.append(ti)
             handler.__name__ = "h_%d" % ti
             return pyc.register_handler(pyc.after_int)(handler)
-        attrs = {"h": make(), "should_patch_meta_path": case["cfg"][ti]["patch_meta"]}
+        def enter_hook(self):
+            if getattr(self, "_verif_fail_enter", False):
+                self._verif_fail_enter = False
+                raise RuntimeError("boom")
+
+        def exit_hook(self):
+            if getattr(self, "_verif_fail_exit", False):
+                self._verif_fail_exit = False
+                raise RuntimeError("boom")
+        attrs = {"h": make(), "should_patch_meta_path": case["cfg"][ti]["patch_meta"], "enter_tracing_hook": enter_hook, "exit_tracing_hook": exit_hook}
         if case["cfg"][ti]["has_sys"]:
             def sysh(self, ret, node, frame, evt, guard, ti=ti, **kw):
                 if frame.f_code.co_filename == "<sandbox-x>":
@@ -170,6 +179,22 @@ def run_case(case, ci):
             if k == "ctx":
                 with tracers[it[1]].tracing_context(disabled=it[2]):
                     run_items(it[3])
+            elif k == "ctxfail":
+                # the tracer's enter_tracing_hook raises: the context is not entered (only when the tracer is not on the stack yet: the hook runs on a push)
+                tracers[it[1]]._verif_fail_enter = tracers[it[1]] not in ee._TRACER_STACK
+                armed = tracers[it[1]]._verif_fail_enter
+                with tracers[it[1]].tracing_context(disabled=it[2]):
+                    if armed:
+                        raise AssertionError("the body ran although the enter hook raised")
+                    raise RuntimeError("boom")
+            elif k == "ctxexitfail":
+                # the tracer's exit_tracing_hook raises after the body has run
+                tracers[it[1]]._verif_fail_exit = tracers[it[1]] not in ee._TRACER_STACK
+                armed = tracers[it[1]]._verif_fail_exit
+                with tracers[it[1]].tracing_context(disabled=it[2]):
+                    run_items(it[3])
+                if not armed:
+                    raise RuntimeError("boom")
             elif k == "exec":
                 t = tracers[it[1]]
                 with t.tracing_context(disabled=t._is_tracing_hard_disabled, tracing_enabled_file="<sandbox-execctx>"):
